@@ -200,6 +200,10 @@ def noncomm_feature(t):
     return 'has_noncommutative_op' if walk(t) else 'ac_only'
 
 
+def _has_kind(t, kinds):
+    return t['k'] in kinds or any(_has_kind(c, kinds) for c in t.get('a', []))
+
+
 def run(tier, chk):
     rnd = random.Random(chk.seed)
     negative_control(chk)
@@ -210,6 +214,9 @@ def run(tier, chk):
         items += gen_derived(3, [1, 8, 16, 32, 64], ['+', '^', '-'], ['plain', 'mut'], chk)
     else:
         items = [x for x in items if x['kind'] == 'plain' or rnd.random() < 0.5]
+        # concatenations need two widths one of which is the sum of parts of the other (8 + 8 = 16): near-equal pairs of
+        # concatenations (part swapped, slot bounds moved, one part fewer / more), slices and cells at the widths 8/16
+        items += [x for x in gen_derived(3, [8, 16], ['+'], ['plain', 'mut'], chk) if _has_kind(x['e'], ('compose', 'slice', 'mem', 'cond'))]
     cases = [dict(x, id=i) for i, x in enumerate(items)]
     # expressions produced by the simplifier (adjacent slices merged, constants folded, operands reordered ...) are IR expressions too
     from . import c05
